@@ -270,6 +270,14 @@ pub fn graph_scenario(idx: usize, rng: &mut Rng, o: &GraphOpts, family: &str) ->
             break;
         }
     }
+    // C09: the mutating paths the replicas do not take themselves, on private copies
+    if o.log_patches && !w.dead {
+        for r in 0..w.n() {
+            let s = (r + 1) % w.n();
+            let h = random_antichain(&w, r, rng);
+            w.probe_patch_paths(r, s, &h, rng, &o.prof);
+        }
+    }
     // C10: closing retrievals for every single-change have-set (and a few pairs) on every replica
     if family == "longgraph" && !w.dead {
         for r in 0..w.n() {
